@@ -29,10 +29,10 @@ ASSUMPTIONS = [
     "schema 'defines'; scalar types are compared exactly (1, True, '1', 1.0 "
     "differ)",
 ]
-FLOORS = {"quick": {"accepted_compared": 6000},
+FLOORS = {"quick": {"accepted_compared": 20000},
           "thorough": {"accepted_compared": 150000}}
-N_MODELS = {"quick": 300, "thorough": 12000}
-TEXTS = {"quick": 14, "thorough": 36}
+N_MODELS = {"quick": 1500, "thorough": 12000}
+TEXTS = {"quick": 20, "thorough": 36}
 
 
 def shards(tier):
